@@ -27,10 +27,11 @@ def valuations(tier):
         for cal in (False, True):
             for flt in (True, False):
                 out.append(witness.Valuation(ctl, cal, flt))
+            out.append(witness.Valuation(ctl, cal, True, sensors=()))          # "for any number of sensors": none at all
     if tier == "thorough":
         for ctl in (False, True):
             for cal in (False, True):
-                out.append(witness.Valuation(ctl, cal, True, sensors=()))
+                out.append(witness.Valuation(ctl, cal, False, sensors=()))
                 out.append(witness.Valuation(ctl, cal, True, sensors=(("gamma", 2),), n_state=1, n_control=1, n_calib=1))
                 out.append(witness.Valuation(ctl, cal, False, sensors=(("a", 1), ("b", 2), ("c", 6)), n_state=7, n_control=3, n_calib=2))
     return out
@@ -66,7 +67,7 @@ def run(ctx: core.Ctx) -> int:
                        + (f"  (+{len(diag) - 1} more)" if len(diag) > 1 else ""))
         ok_n += rc == 0
         samples.append({"valuation": v.tag, "rc": rc, "tu_lines": src.count("\n"), "diagnostics": diag[:3]})
-    ctx.floor("WITNESS", len(results), 8 if ctx.tier == "quick" else 20, "witness translation units")
+    ctx.floor("WITNESS", len(results), 12 if ctx.tier == "quick" else 24, "witness translation units")
     # DELEGATE: evaluated body of the Reading::sensor_model override, per calibration flag
     ev = minieval.MiniEval({"ast_fragments": w.frag, "cpp": w.cpp}, aliases={"fragments": "ast_fragments"})
     nd = 0
